@@ -90,8 +90,12 @@ static void one(idx_t l1, idx_t l2, int ndim, DTWSettings *st) {
         if (ndim == 1) { acc(dtw_warping_paths_affinity(wps, s1, l1, s2, l2, true, true, false, triu, 0.5, 0.2, -0.05, 0.9, st)); calls[13]++; }
         seq_t *full = malloc(sizeof(seq_t) * (l1 + 1) * (l2 + 1));
         dtw_expand_wps_affinity(wps, full, l1, l2, st); calls[14]++; acc(full[(l1 + 1) * (l2 + 1) - 1]); free(full);
-        for (int k = 0; k < 3; k++) { idx_t rb = rnd() % (l1 + 1), cb = rnd() % (l2 + 1); idx_t re = rb + 1 + rnd() % (l1 + 1 - rb), ce = cb + 1 + rnd() % (l2 + 1 - cb);
-            seq_t *sl = malloc(sizeof(seq_t) * (re - rb) * (ce - cb)); dtw_expand_wps_slice_affinity(wps, sl, l1, l2, rb, re, cb, ce, st); calls[15]++; acc(sl[0]); free(sl); }
+        for (idx_t rb = 0; rb <= l1; rb++) for (idx_t re = rb + 1; re <= l1 + 1; re++)
+            for (idx_t cb = 0; cb <= l2; cb++) for (idx_t ce = cb + 1; ce <= l2 + 1; ce++) {
+                if (triu || (l1 * l2 > 12 && rnd() % 24 != 0)) continue;
+                seq_t *sl = malloc(sizeof(seq_t) * (re - rb) * (ce - cb));
+                dtw_expand_wps_slice_affinity(wps, sl, l1, l2, rb, re, cb, ce, st); calls[15]++; acc(sl[0]); free(sl);
+            }
         DTWWps p = dtw_wps_parts(l1, l2, st);
         idx_t mr, mc; idx_t mi = dtw_wps_max(&p, wps, &mr, &mc, l1, l2); calls[17]++;
         if (mi >= wl) abort();
